@@ -525,3 +525,5 @@ func (e C08) Execute(plan interface{}, c *core.Ctx) *core.Verdict {
 	}
 	return try(text, fmt.Sprintf("%+v", p.Muts))
 }
+
+func newArmorReader(s *seam.SimSource) io.Reader { return armor.NewReader(s.Reader()) }
